@@ -137,6 +137,17 @@ theorem PGood.loopSt {σ β} {step : σ → P (Sum σ β)} (a : σ) (hp : ∀ a,
 
 /-! ### the reader, function by function -/
 
+theorem atLeast_pg (n : Nat) : PG (atLeast n) :=
+  ⟨by apply PGood.of_simple; intro w s hs
+      exact ⟨rfl, (by intro f hf; cases hf), by intro a s' he; cases he; exact hs⟩,
+   by intro w s a s' h; cases h; exact Nat.le_refl _⟩
+
+theorem lengthGe_iff {α : Type} : ∀ (l : List α) (n : Nat), lengthGe l n = true ↔ n ≤ l.length := by
+  intro l
+  induction l with
+  | nil => intro n; cases n <;> simp [lengthGe]
+  | cons a r ih => intro n; cases n <;> simp [lengthGe, ih]
+
 theorem packedTail_pg : ∀ (l : List Nat) (r : UInt32), PG (packedTail l r) := by
   intro l
   induction l with
@@ -213,7 +224,7 @@ theorem readType_pg (hs : HSt) : PG (readType hs) := by
   apply PG.bind packedInt_pg; intro _
   apply PG.bind packedInt_pg; intro parent
   apply PG.bind packedInt_pg; intro mc
-  apply PG.bind PG.remaining; intro rem
+  apply PG.bind (atLeast_pg _); intro enough
   split
   · exact PG.failP
   · split
@@ -278,7 +289,7 @@ theorem readMemberValue_pg (hs : HSt) (m : Member) : PG (readMemberValue hs m) :
   unfold readMemberValue
   split
   · apply PG.bind packedInt_pg; intro len
-    apply PG.bind PG.remaining; intro rem
+    apply PG.bind (atLeast_pg _); intro enough
     split
     · exact PG.failP
     · split
